@@ -369,6 +369,7 @@ Projection(seed) ==
 
 Canonical == \A h \in Handles : IsSeed(SeedOf(h))
 OneBlockPerSeed == /\ \A h \in Handles : heap[h].blk \in DOMAIN blocks
+                                        \/ (call # None /\ call.op = "Free" /\ call.a.h = h)   \* being released
                    /\ \A g, h \in Handles : g # h => heap[g].blk # heap[h].blk
 NoLeakAtRest == call = None => DOMAIN blocks = { heap[h].blk : h \in Handles }
 =============================================================================
